@@ -708,7 +708,7 @@ def _multiscale(c):
     return ms
 
 
-reg(Subject("MultiscaleCompositeTransform", {"shape": [[4], [5], [2, 2, 2], [3, 2, 1]], "split_dim": [1, 2], "stages": [2, 1, 3]}, _multiscale, lambda c: tuple(c["shape"]), kind="wrapper",
+reg(Subject("MultiscaleCompositeTransform", {"shape": [[4], [5], [2, 2, 2], [3, 2, 1], [2, 4, 2], [1, 2, 8]], "split_dim": [1, 2, 3], "stages": [2, 1, 3]}, _multiscale, lambda c: tuple(c["shape"]), kind="wrapper",
             patterns=("init", "pat1"), specials=[0.0], smooth=False, out_shape=lambda c: (int(np.prod(c["shape"])),)))
 
 
@@ -739,7 +739,7 @@ def valid(subject, cfg):
         if sd > len(shape):
             return False
         size = shape[sd - 1]
-        for _ in range(n_):
+        for _ in range(n_):  # every stage (the last one too) must see >= 2 entries along the split dimension
             if size < 2:
                 return False
             size = size // 2
@@ -747,4 +747,8 @@ def valid(subject, cfg):
 
 
 def enum_configs(subject, k):
+    k = max(k, getattr(subject, "min_k", 0))  # small subjects are enumerated completely in every tier
     return [c for c in configs(subject, k) if valid(subject, c)]
+
+
+SUBJECTS["MultiscaleCompositeTransform"].min_k = 3
